@@ -115,6 +115,33 @@ fn child(args: &[String]) -> i32 {
     if args[0] == "2" || args[0] == "3" {
         return child_both(args);
     }
+    if args[0] == "6" {
+        // one process, the stdout stream RE-POINTED between two appenders: an appender on stdout is built and used,
+        // then fd 1 is made a copy of fd 2 (dup2: the other kind of stream), then a NEW appender on stdout is built and
+        // used.  Each appender behaves as one built in a process whose stdout has always been what it is now.
+        let tty_only = args[1] != "0";
+        let pattern = String::from_utf8(unhex(&args[2])).expect("utf8 pattern");
+        let lvl = level(args[3].parse::<u128>().expect("level"));
+        let msg = String::from_utf8(unhex(&args[4])).expect("utf8 message");
+        let mut code = 0;
+        for round in 0..2 {
+            if round == 1 {
+                assert!(unsafe { libc::dup2(2, 1) } >= 0, "dup2");
+            }
+            let app = ConsoleAppender::builder()
+                .target(Target::Stdout)
+                .tty_only(tty_only)
+                .encoder(Box::new(PatternEncoder::new(&pattern)))
+                .build();
+            if app
+                .append(&log::Record::builder().level(lvl).target("tgt").args(format_args!("{}", msg)).build())
+                .is_err()
+            {
+                code = 3;
+            }
+        }
+        unsafe { libc::_exit(code) }
+    }
     if args[0] == "4" || args[0] == "5" {
         // the stream's ConsoleWriter used DIRECTLY as the encoder's writer (no lock()), or the plain stream when
         // there is none: byte for byte what an unrestricted console appender on that stream writes
